@@ -31,6 +31,8 @@ import (
 
 const maxFills = 3 // appends of about one data page (128 MiB of tmpfs each) per history
 
+const seamIdle = 150 * time.Millisecond // see opGCInterleaved
+
 type seamFactory struct {
 	page.Factory
 	kind     string // data | index | meta
@@ -104,8 +106,10 @@ func (f *seamFactory) GetPage(index int64) (page.MappedPage, bool) {
 	if f.kind == "index" {
 		f.at(1)
 	}
+	f.actorCall(true)
 	p, ok := f.Factory.GetPage(index)
-	if !ok {
+	f.actorCall(false)
+	if !ok || f.unmappedPage(index, p) {
 		return nil, false
 	}
 	return f.wrapPage(index, p), true
@@ -118,7 +122,9 @@ func (f *seamFactory) TruncatePages(index int64) {
 	case "index":
 		f.at(3)
 	}
+	ts := f.truncEnter(index) // truncseam_test.go: points inside the truncation
 	f.Factory.TruncatePages(index)
+	f.truncLeave(ts)
 }
 
 func (f *seamFactory) AcquirePage(index int64) (page.MappedPage, error) {
@@ -138,9 +144,14 @@ func (f *seamFactory) AcquirePage(index int64) (page.MappedPage, error) {
 		}
 		seamMu.Unlock()
 	}
+	f.actorCall(true)
 	p, err := f.Factory.AcquirePage(index)
+	f.actorCall(false)
 	if err != nil {
 		return nil, err
+	}
+	if f.unmappedPage(index, p) {
+		return nil, fmt.Errorf("harness: the %s page factory handed out page %d unmapped", f.kind, index)
 	}
 	return f.wrapPage(index, p), nil
 }
@@ -339,9 +350,14 @@ func (w *world) opGCInterleaved() {
 		}
 		w.classes[fmt.Sprintf("gc-seam-point-%d", p)]++
 		done := make(chan error, 1)
+		alive := make(chan struct{}, 1)
 		go func() {
 			putsHere, noted := 0, false
 			for _, s := range mine {
+				select {
+				case alive <- struct{}{}:
+				default:
+				}
 				pageBefore, putsBefore := w.maxData, w.okPuts
 				if err := w.runStep(s, fmt.Sprintf("gc point %d", p)); err != nil {
 					done <- err
@@ -359,10 +375,29 @@ func (w *world) opGCInterleaved() {
 			}
 			done <- nil
 		}()
-		select {
-		case actorErr = <-done:
-		case <-time.After(10 * time.Second):
-			blocked = done // GC goes on; the script finishes when it can
+		// The script runs to completion here unless it has to wait for GC (since /repo fix e5b201e GC
+		// holds the queue's read lock: every append / acknowledgement waits until GC returned). A
+		// script that starts no new step for seamIdle is taken to wait: GC goes on, the script
+		// finishes when it can. The clock only chooses between two legal schedules.
+		idle := time.NewTimer(seamIdle)
+		defer idle.Stop()
+		for {
+			select {
+			case actorErr = <-done:
+				return
+			case <-alive:
+				if !idle.Stop() {
+					select {
+					case <-idle.C:
+					default:
+					}
+				}
+				idle.Reset(seamIdle)
+				continue
+			case <-idle.C:
+				blocked = done
+				return
+			}
 		}
 	}
 	seamMu.Lock()
